@@ -440,6 +440,11 @@ Proof. exact py_detect_keyboard_walk_eq. Qed.
 (* the layouts read off the dict literals of the source are the extracted rows *)
 Theorem C05_side_translated_layouts : py_kbs = c_kbs /\ c_min_run = 4 /\ NoDup (map b_name py_keyboards).
 Proof. exact (conj side_py_kbs (conj side_min_run_4 py_keyboards_names_differ)). Qed.
+(* the default values of the source: detect_keyboard_walk(password) runs with min_keyboard_run = 4,
+   train(password) with set_threshold = False *)
+Theorem C05_side_translated_defaults :
+  py_detect_keyboard_walk_default_min_keyboard_run = 4 /\ py_mw_train_default_set_threshold = false.
+Proof. exact (conj side_default_min_run side_default_set_threshold). Qed.
 Theorem keyboard_split_ok_source : forall pw, pw <> [] ->
   exists sl f dk, py_keyboard_walk_c pw = Some (sl, f, dk) /\ tiles c_pm pw sl /\ Forall c_sound sl.
 Proof. exact py_keyboard_split_ok. Qed.
